@@ -211,7 +211,7 @@ def run(ctx):
                 r1d.violate("C10|R1d|%s|%s" % (n, hn), "%s constructs a second %s header: the response would carry it twice" % (n, hn), s["span"]["file"], s["span"]["line"], n)
 
     # ---- R2 who may construct a Response
-    r2 = chk.rule("R2-responses-start-from-the-builder", "every reachable Response is created by the constructor with header argument Some(<result of the default-header builder>); no other reachable code builds a Response value", floor=3)
+    r2 = chk.rule("R2-responses-start-from-the-builder", "every reachable Response is created by the constructor with header argument Some(<result of the default-header builder>); no other reachable code builds a Response value", floor=1)
     ctor = "response::Response::get_response"
     allowed_agg = {ctor}
     for n in local:
